@@ -192,6 +192,13 @@ ELEMENTWISE_BINARY = {
     NP + "where", NP + "power", NP + "equal", NP + "greater", NP + "less",
 }
 LIKE = {NP + "ones_like": 1, NP + "zeros_like": 0, NP + "empty_like": None}
+# one operation, two spellings (np.f(x, ...) / x.f(...))
+_METHOD_FORMS = {"dot", "cumsum", "argsort", "nonzero", "astype"} | \
+    ELEMENTWISE_METHODS | REDUCTION_METHODS
+_FUNCTION_FORMS = {"clip", "flip", "cumsum", "argsort", "sqrt", "abs",
+                   "round", "copy", "ravel", "squeeze", "negative", "square",
+                   "sum", "min", "max", "mean", "any", "all", "argmax",
+                   "argmin", "std", "prod", "median"}
 
 
 class Align:
@@ -797,6 +804,21 @@ class Align:
             return self.summaries[fname](self, t, args, kwargs)
         if fname.startswith("mokapot."):
             return self._interp_callee(t, fname, args, kwargs)
+        # np.f(x, ...) spelled as a function where the rules above know the
+        # method x.f(...): same operation
+        if fname in (NP + "matmul", NP + "dot") and len(args) == 2:
+            return self._mcall(("mcall", args[0], "dot", (args[1],), ()))
+        if fname.startswith(NP) and args and not getattr(
+                self, "_xdispatch", False):
+            meth = fname[len(NP):]
+            if meth in _METHOD_FORMS:
+                self._xdispatch = True
+                try:
+                    return self._mcall(("mcall", args[0], meth,
+                                        tuple(args[1:]),
+                                        tuple(sorted(kwargs.items()))))
+                finally:
+                    self._xdispatch = False
         return Opaque(f"call {fname}")
 
     def _len_space(self, n):
@@ -916,6 +938,14 @@ class Align:
                 return Arr(v.space, q=("model", meth, show(base_t, 60)))
         if meth == "sum" or meth == "mean":
             return Scalar()
+        # x.f(...) where the rules above know the function np.f(x, ...)
+        if meth in _FUNCTION_FORMS and not getattr(
+                self, "_xdispatch", False):
+            self._xdispatch = True
+            try:
+                return self._call(t, NP + meth, [base_t] + args, kwargs)
+            finally:
+                self._xdispatch = False
         return Opaque(f"method .{meth} on {base!r}")
 
     # ------------------------------------------------ callee interpretation
